@@ -183,6 +183,18 @@ def order_rules(ctx):
             same = bool(pn_) and other == ["%s.%s" % (pn_[0], tgt)]
             obs.append(ob("C20.order/import/flag/%s" % tgt, same, ctx.where(f), "`%s` is merged from %s" % (tgt, other),
                           witness=None if same else "a group whose only scripts are inline <wxs> blocks: imported, the WXS runtime is missing; added file by file, it is there"))
+        # nothing of the imported group is skipped: the merge has no early exit, and each map is merged under no condition
+        rets = [n for n in sir.walk(f.body) if n.get("k") == "return"]
+        import guards as gd2
+        Gi = gd2.guards_of(f.body)
+        conds = []
+        for m in map_fields:
+            for n in sir.walk(f.body):
+                if n.get("k") == "mcall" and n["m"] in ("extend", "insert", "append") and sir.expr_str(n["recv"]).endswith("." + m):
+                    conds += [sir.expr_str(sj)[:40] for kd, sj, pl in Gi.get(id(n), []) if kd == "cond"]
+        okm = not rets and not conds
+        obs.append(ob("C20.order/import/unconditional", okm, ctx.where(f), "every part of the imported group is merged, whatever the group holds" if okm else "the merge %s" % ("returns early" if rets else "of a map depends on %s" % conds[:2]),
+                      witness=None if okm else "importing a group that holds only scripts merges nothing: the scripts and the WXS runtime are missing"))
         # and the adders themselves override
         for name, m in (("add_tmpl", "trees"), ("add_script", "scripts")):
             g = [x for x in tc.fns if x.base == "TmplGroup" and x.name == name and x.body and "group" in x.module]
